@@ -29,7 +29,7 @@ class AXILite2CSR(LiteXModule):
         self.axi_lite = axi_lite
         self.csr      = bus_csr
 
-        assert axi_lite.data_width == bus_csr.data_width
+        assert axi_lite.data_width >= bus_csr.data_width
 
         fsm, comb = axi_lite_to_simple(
             axi_lite   = self.axi_lite,
